@@ -368,11 +368,20 @@ class ActionWalker(xtuml.Walker):
         return property(fget, fset)
     
     def accept_BinaryOperationNode(self, node):
+        def divide(lhs, rhs):
+            # integer operands divide to an integer (truncated towards zero)
+            if (isinstance(lhs, int) and isinstance(rhs, int) and
+                not isinstance(lhs, bool) and not isinstance(rhs, bool)):
+                quotient = abs(lhs) // abs(rhs)
+                return quotient if (lhs < 0) == (rhs < 0) else -quotient
+            
+            return lhs / rhs
+        
         ops = {
             '+':   lambda lhs, rhs: (lhs + rhs),
             '-':   lambda lhs, rhs: (lhs - rhs),
             '*':   lambda lhs, rhs: (lhs * rhs),
-            '/':   lambda lhs, rhs: (lhs / rhs),
+            '/':   divide,
             '%':   lambda lhs, rhs: (lhs % rhs),
             '<':   lambda lhs, rhs: (lhs < rhs),
             '<=':  lambda lhs, rhs: (lhs <= rhs),
